@@ -87,6 +87,22 @@ inline std::string spell(Tape& t, const InFile& f) {
 	}
 }
 
+// Payload bytes that look like the container's own structure (uniformly random bytes practically never do): decided from the payload itself, so no
+// tape byte is spent.  One payload in eight (of those with at least 16 bytes) gets, at its start and/or end, a block tag with a length, a volume
+// header, a RIFF/WAVE preamble, the clump version string, a run of one value, or CR-LF / 0x1A / 0x00 / 0xFF bytes.
+inline void plant_format_bytes(std::vector<uint8_t>& c) {
+	if (c.size() < 16 || (c[0] & 7) != 0) return;
+	static const std::vector<std::string> pats = {
+		std::string("VBLK\x08\x00\x00\x80", 8), std::string("VBLK\xff\xff\xff\x7f", 8), std::string("VOL \x20\x00\x00\x80volh\x00\x00\x00\x80vols", 20), std::string("voli\x0e\x00\x00\x80", 8),
+		std::string("RIFF\x24\x00\x00\x00WAVEfmt \x10\x00\x00\x00", 20), std::string("data\x04\x00\x00\x00", 8), std::string("fmt \x10\x00\x00\x00", 8), std::string("OP2 Clump File Version 1.0\x1a\x00\x00\x00\x00\x00", 32),
+		std::string("\r\n\r\n\x1a", 5), std::string(12, '\0'), std::string(12, '\xff'), std::string("PBMP\x00\x00\x00\x00head", 12), std::string("BM\x36\x04\x00\x00", 6), std::string("CPAL\x01\x00\x00\x00PPAL", 12)};
+	const std::string& a = pats[c[1] % pats.size()]; const std::string& b = pats[c[2] % pats.size()];
+	unsigned where = c[3] & 3;   // 0 start, 1 end, 2 both, 3 a long run of one value in the middle
+	if (where == 3) { size_t n = std::min<size_t>(c.size() - 2, 3 + size_t(c[4]) * 17 % 5000); uint8_t v = (c[5] & 1) ? 0x20 : c[5]; std::fill(c.begin() + 1, c.begin() + 1 + long(n), v); return; }
+	if (where != 1) std::copy(a.begin(), a.begin() + long(std::min(a.size(), c.size())), c.begin());
+	if (where != 0 && c.size() >= b.size()) std::copy(b.begin(), b.end(), c.end() - long(b.size()));
+}
+
 // Generates a set of files with names distinct ignoring case (unless allowDup), writes them below the scratch root.
 inline std::vector<InFile> gen_files(Tape& t, size_t maxFiles) {
 	root();
@@ -109,7 +125,7 @@ inline std::vector<InFile> gen_files(Tape& t, size_t maxFiles) {
 		bool clash;
 		do { clash = false; for (auto& g : fs) if (ieq(g.name, f.name)) { clash = true; f.name += char('0' + i % 10); } } while (clash);
 		f.dir = dirs[t.below(4)];
-		f.content = t.expand(gen_size(t));
+		f.content = t.expand(gen_size(t)); plant_format_bytes(f.content);
 		fs.push_back(f);
 	}
 	return fs;
